@@ -49,6 +49,9 @@ fam({'C08': ('main', 'all')},
     driver='caster', tv='CasterTV',
     mc_quick=[('PubSubL2', 'PubSubL2')], mc_thorough=[('PubSubL2', 'PubSubL2'), ('PubSubL2', 'PubSubL2_2s'), ('PubSubL2', 'PubSubL2_3u')],
     n=(80, 300, 2000, 8000))
+fam({'C20': ('main', 'all')},
+    driver='attempt', tv='AttemptTV', mc_quick=[('AttemptMC', 'AttemptMC')], mc_thorough=[('AttemptMC', 'AttemptMC_big')],
+    n=(120, 150, 3000, 2000))
 
 
 def sig_of(rej):
